@@ -1365,7 +1365,9 @@ int ov_raw_seek(OggVorbis_File *vf,ogg_int64_t pos){
           if(ogg_page_bos(&og)){
             /* we traversed */
             _decode_clear(vf); /* clear out stream state */
-            ogg_stream_clear(&work_os);
+            ogg_stream_reset(&work_os); /* keep the storage; the scratch
+                                           stream is needed for the
+                                           link we are entering */
           } /* else, do nothing; next loop will scoop another page */
         }
       }
